@@ -389,16 +389,17 @@ EncFormVal(form, v, cf) ==
 EncAbbrev(attrs) ==
     <<1, 17, 0>> \o Concat([i \in 1..Len(attrs) |->
          ULeb(N8(AtCode[attrs[i].at])) \o ULeb(N8(FormCode[attrs[i].form]))]) \o <<0, 0, 0>>
-EncUnit(attrs, cf) ==
+(* ut: DWARF 5 unit type (1 compile, 4 skeleton, 5 split_compile; 4 and 5 carry a dwo id) *)
+EncUnitT(attrs, cf, ut) ==
     LET die  == <<1>> \o Concat([i \in 1..Len(attrs) |-> EncFormVal(attrs[i].form, attrs[i].v, cf)])
         ow   == IF cf.fmt = 64 THEN 8 ELSE 4
         hdr  == IF cf.ver >= 5
-                THEN Fld(N8(cf.ver), 2, cf.le)
-                     \o (IF cf.dwo THEN <<5>> ELSE <<1>>)          \* DW_UT_split_compile / DW_UT_compile
+                THEN Fld(N8(cf.ver), 2, cf.le) \o <<ut>>
                      \o <<cf.asz>> \o OffWord(Z8, cf)
-                     \o (IF cf.dwo THEN <<1, 2, 3, 4, 5, 6, 7, 8>> ELSE <<>>)   \* dwo_id
+                     \o (IF ut \in {4, 5} THEN <<1, 2, 3, 4, 5, 6, 7, 8>> ELSE <<>>)   \* dwo_id
                 ELSE Fld(N8(cf.ver), 2, cf.le) \o OffWord(Z8, cf) \o <<cf.asz>>
     IN EncInitLen(Len(hdr) + Len(die), cf) \o hdr \o die
+EncUnit(attrs, cf) == EncUnitT(attrs, cf, IF cf.dwo THEN 5 ELSE 1)   \* DW_UT_split_compile / DW_UT_compile
 
 (* parse_attribute + Attribute::value(): the normalised value               *)
 AllowSecOff(at) == at \in {"location", "ranges"}
@@ -450,6 +451,17 @@ UnitNew(attrs, cf, F) ==
             LET r == GetAddress([sec |-> F.addr, base |-> ab], cf, lv.v) IN
             IF r.ok THEN [ok |-> TRUE, u |-> [u0 EXCEPT !.low_pc = r.v]] ELSE [ok |-> FALSE, err |-> r.err]
       [] OTHER -> [ok |-> TRUE, u |-> u0]
+
+(* Split DWARF plumbing.  Dwarf::make_dwo(parent): the .dwo file takes       *)
+(* .debug_addr and .debug_ranges from the file of the skeleton unit.         *)
+(* Unit::copy_relocated_attributes(skeleton): low_pc and addr_base always;   *)
+(* the (GNU) ranges base only before DWARF 5 -- a DWARF 5 split unit keeps   *)
+(* the default base just past the header of its own .debug_rnglists.dwo, and *)
+(* loclists_base is never copied.                                            *)
+MakeDwo(F, PF) == [F EXCEPT !.addr = PF.addr, !.ranges = PF.ranges]
+CopyRelocated(u, sk, cf) ==
+    [u EXCEPT !.low_pc = sk.low_pc, !.addr_base = sk.addr_base,
+              !.rnglists_base = IF cf.ver < 5 THEN sk.rnglists_base ELSE @]
 
 AddrTab(F, u) == [sec |-> F.addr, base |-> u.addr_base]
 (* Dwarf::attr_address *)
